@@ -2,6 +2,7 @@ package main
 
 import (
 	"context"
+	"fmt"
 	"sync/atomic"
 
 	"github.com/grailbio/bigslice/metrics"
@@ -33,11 +34,16 @@ type prog struct {
 	// Diamond: not a single Func but a diamond of invocations (see diamond.go);
 	// P is unused.
 	Diamond bool
+	// Bytes: a program over a pointer-carrying value column, built in bytes.go
+	// (P is unused). Runs under the whole lattice except the pragma dimension
+	// (its Materialize pragma is part of the program) and, in the thorough
+	// tier, without the full product of the session options.
+	Bytes *bytesSpec
 }
 
 // text describes the program for messages.
 func (pr prog) text() string {
-	if pr.Diamond {
+	if pr.Diamond || pr.Bytes != nil {
 		return pr.What
 	}
 	return pr.P.String()
@@ -113,6 +119,20 @@ var programs = []prog{
 }
 
 func init() {
+	for _, sp := range []bytesSpec{{Kind: 0}, {Kind: 1}, {Kind: 2}, {Kind: 3}, {Kind: 0, Ints: true}} {
+		sp := sp
+		col, boundary := "[]byte", "Map(identity, ExperimentalMaterialize)"
+		if sp.Ints {
+			col = "[]int"
+		}
+		if sp.Kind == 3 {
+			boundary = "Reshuffle"
+		}
+		consumer := [...]string{"Filter(k%3!=0)", "Head(21)", "Flatmap(2 rows if k%3!=0)", "Filter(k%3!=0)"}[sp.Kind]
+		name := "ptrcol-" + map[bool]string{false: "bytes", true: "ints"}[sp.Ints] + "-" + bytesKindNames[sp.Kind]
+		programs = append(programs, prog{Name: name, Bytes: &sp,
+			What: fmt.Sprintf("Const(2 shards, 900 rows, (int, %s)) | %s | %s: a partial-vector reader directly after a task boundary over a pointer-carrying column", col, boundary, consumer)})
+	}
 	programs = append(programs,
 		// One Map consumed twice inside the Func, once narrowly (Filter) and once by
 		// a shuffle into exactly ONE shard (Reshard(1)), in both compile orders; with
